@@ -59,3 +59,23 @@ def rule_toplevel_comment(run, prog, rid="R-19.6"):
     run.ob(rid, f"{m.key}::top-level-comment", bad is None,
            (f"after the top-level items {list(bad[0])} a {bad[1]} line inserted in file scope gets {bad[2]}: inserting a comment "
             f"between two definitions adds a diagnostic of its own") if bad else "", m.node, evaluations=n)
+    # ... nor by CheckHeader, which runs after every statement: once the header question of the file is settled (accepted header,
+    # or the one INVALID_HEADER of a headerless file), a comment inserted between two later definitions changes nothing
+    from .c13 import simulate_header_machine
+    bad2, n2 = None, 0
+    try:
+        for before in (("mc", "nc"), ("mc", "mc", "nc"), ("nc",), ("oc", "nc"), ("mc", "nc", "nc")):
+            for inserted in ("oc", "mc"):
+                for rx_ok in (True, False):
+                    n2 += 1
+                    base, _ = simulate_header_machine(prog, before + ("nc",), rx_ok)
+                    rec, at = simulate_header_machine(prog, before + (inserted, "nc"), rx_ok)
+                    if rec.emitted != base.emitted and bad2 is None:
+                        bad2 = (before, inserted, rx_ok, base.emitted, rec.emitted)
+    except Unsupported as e:
+        raise Undecided(f"CheckHeader.run is outside the evaluable subset: {e}")
+    kinds = {"mc": "block comment", "oc": "// comment", "nc": "definition"}
+    run.ob(rid, "rules/check_header.py::CheckHeader.run::silent-after-its-verdict", bad2 is None,
+           (f"in a file that begins with {[kinds[k] for k in bad2[0]]} (header recogniser {'matching' if bad2[2] else 'failing'}) a "
+            f"{kinds[bad2[1]]} inserted before the next definition changes the header diagnostics from {bad2[3]} to {bad2[4]}")
+           if bad2 else "", prog.method("CheckHeader", "run").node, evaluations=n2)
